@@ -11,13 +11,14 @@ ALLOW = {
 
 
 def subjects():
-    out = []
-    for ctx in (False, True):
-        tree, src = load.runtime_ast(ctx)
-        out.append((f'translator.py:runtime template[ctx={int(ctx)}]', tree, 'sourcer/translator.py'))
-    tree, src = load.runtime_ast(True, sub=True)
-    out.append(('translator.py:sub-grammar template', tree, 'sourcer/translator.py'))
-    out.append(('sourcer/parser.py (generated)', load.parse('sourcer/parser.py'), 'sourcer/parser.py'))
+    from .. import routes, modroute
+    out = list(routes.runtime_subjects())
+    R, mods = routes.emitted_modules()
+    for m in mods:
+        # whole emitted modules: rule functions, entry points, error functions, wiring
+        if isinstance(m, modroute.Emitted) and (m.sub or getattr(m, 'route', '') in ('templates', 'classes',
+                                                                                         'deep-nesting')):
+            out.append((f'emitted module of route {m.label}', m.tree, 'sourcer/translator.py'))
     for rel in ['sourcer/grammar.py', 'sourcer/translator.py'] + load.expression_files():
         out.append((rel, load.parse(rel), rel))
     return out
@@ -53,10 +54,12 @@ def run(rep, tier):
     rep.sample({'allowed exception': [f'{k}: {v}' for k, v in ALLOW.items()]})
     # the driver's memo and stack are per-call locals
     call_const = load.call_constant()
-    for ctx in (False, True):
-        tree, src = load.runtime_ast(ctx)
-        what = f'translator.py:_main_template[ctx={int(ctx)}]'
+    from .. import routes
+    for what, tree, rel in routes.runtime_subjects():
+        if rel != 'sourcer/translator.py':
+            continue
         name, fn, call = trampoline.find_trampoline(tree, what)
+        ctx = bool(fn.args.args and fn.args.args[0].arg == '_ctx')
         roles, bad, stats = trampoline.analyse(fn, call_const, ctx, what)
         for rule, msg in bad:
             if rule == 'C07-memo-local':
